@@ -637,6 +637,14 @@ def gen_rm(ctx):
                     else:
                         pieces.append(("L", p[i])); i += 1
                 cases.append(("rm", State("S", v), ("n",), op, pieces))
+    # exhaustive small scope: every value over {a,b,é} x every pattern over {a,b,*,?} up to length 2 (quick) / 3 (thorough)
+    depth = 2 if ctx.quick else 3
+    evals = ["".join(x) for d in range(depth + 1) for x in itertools.product("abé", repeat=d)]
+    epats = [list(x) for d in range(depth + 1) for x in itertools.product("ab*?", repeat=d)]
+    for v in evals:
+        for p in epats:
+            for op in ("#", "##", "%", "%%"):
+                cases.append(("rm", State("S", v), ("n",), op, [("P", ch) if ch in "*?" else ("L", ch) for ch in p]))
     for st in (State("I", [(0, "abc"), (1, ""), (2, "cab")]), State("S", "v", args=["ab", "ba"])):
         for r in (("a", False), ("a", True), ("g", False), ("g", True)):
             for op in ("#", "##", "%", "%%"):
@@ -948,7 +956,7 @@ def run(ctx):
                 "(every state x reference x {-,=,?,+} x colon) + random; ${#..}; ${..:o:l} with offsets/lengths among negative, zero, in-range, "
                 "out-of-range literals and arithmetic expressions (values supplied to the model); removal with patterns derived from the "
                 "value (literals, * ? brackets, quoted parts, extglob) - the model gets the code's matcher as a table, and patterns in "
-                "the mini grammar are additionally run with the Coq mini matcher and a python oracle. Non-trivial = the operator does not "
+                "the mini grammar are additionally run with the Coq mini matcher and a python oracle; removal also exhaustively for all values over {a,b,é} x all patterns over {a,b,*,?} up to length 2 (quick) / 3 (thorough) x 4 operators. Non-trivial = the operator does not "
                 "reduce to the plain expansion (removal: the result differs from the value; substring/length: the parameter is set; every "
                 "conditional case). Distinct by script text.",
         "samples": [recs[0]["script"], recs[len(recs) // 2]["script"], recs[-1]["script"]],
